@@ -704,13 +704,7 @@ def Tiles (c : Space) (bs : List Space) : Prop :=
   (∀ b, b ∈ bs → b.Proper ∧ b.isIncluded c = true) ∧
   bs.Pairwise (fun a b => a.intersect b = false) ∧ (bs.map Space.volume).sum = c.volume
 
-/-- the two halves of `b` cut at coordinate `p` of axis `ax` (0 = x, 1 = y, otherwise z) -/
-def cutLo (ax : Nat) (b : Space) (p : Int) : Space :=
-  match ax with | 0 => { b with x2 := p } | 1 => { b with y2 := p } | _ => { b with z2 := p }
-def cutHi (ax : Nat) (b : Space) (p : Int) : Space :=
-  match ax with | 0 => { b with x1 := p } | 1 => { b with y1 := p } | _ => { b with z1 := p }
-def axLo (ax : Nat) (b : Space) : Int := match ax with | 0 => b.x1 | 1 => b.y1 | _ => b.z1
-def axHi (ax : Nat) (b : Space) : Int := match ax with | 0 => b.x2 | 1 => b.y2 | _ => b.z2
+/- `cutLo`, `cutHi`, `axLo`, `axHi` (the two halves of a box cut at a coordinate of an axis) are defined in Model.lean -/
 
 /-- the three splitting steps of `RandomGenerator` start from this -/
 theorem tiles_base (c : Space) (hc : c.Proper) : Tiles c [c] := by
